@@ -1,0 +1,28 @@
+//go:build verif
+
+// Contracts for package cli, checked by /verif/govc (comment-only file; compiled only
+// with the build tag "verif", which no build of the application uses).
+package cli
+
+// C09: the personal notebook is replaced atomically (utils.WriteFileAtomic): it is never the
+// target of a non-atomic write; a save that did not take effect returns an error and leaves the
+// notebook as it was.
+//@ func writePersonalDatabase
+//@   requires !fsPartial(dbPath)
+//@   modifies ghost(fsPartial), ghost(fsWhole)
+//@   ensures[C09.notebook-never-partial] !fsPartial(dbPath)
+//@   ensures[C09.notebook-success-is-whole] result == nil ==> fsWhole(dbPath)
+//@   ensures[C09.notebook-failure-keeps-old] result != nil ==> fsWhole(dbPath) == old(fsWhole(dbPath))
+
+// C08: the list written back is the list read, with the new entry in place of the first entry
+// that has the same command string, or appended when there is none; every other entry keeps
+// its position and content. (What is read and written goes through YAML: bounded suite
+// C08-notebook.)
+//@ func saveToPersonalDatabase
+//@   requires !fsPartial(dbPath)
+//@   modifies ghost(fsPartial), ghost(fsWhole)
+//@   ensures[C09.save-never-partial] !fsPartial(dbPath)
+//@   ensures[C09.save-success-is-whole] result == nil ==> fsWhole(dbPath)
+//@   hint[C08.replace-or-append] writePersonalDatabase (exists i int :: 0 <= i && i < atloop(1, len(commands)) && atloop(1, commands[i].Command) == entry.Command && (forall k int :: 0 <= k && k < i ==> atloop(1, commands[k].Command) != entry.Command) && len(commands) == atloop(1, len(commands)) && commands[i] == entry && (forall k int :: 0 <= k && k < len(commands) && k != i ==> commands[k] == atloop(1, commands[k]))) || ((forall k int :: 0 <= k && k < atloop(1, len(commands)) ==> atloop(1, commands[k].Command) != entry.Command) && len(commands) == atloop(1, len(commands)) + 1 && commands[len(commands) - 1] == entry && (forall k int :: 0 <= k && k < len(commands) - 1 ==> commands[k] == atloop(1, commands[k])))
+//@ loop 1
+//@   invariant commands == atloop(1, commands) && (forall k int :: 0 <= k && k < len(commands) ==> commands[k] == atloop(1, commands[k])) && (forall k int :: 0 <= k && k < $i ==> commands[k].Command != entry.Command)
